@@ -1,0 +1,329 @@
+// SPDX-License-Identifier: Apache-2.0
+//
+// Verification hooks (cargo feature `verif-hooks`, off by default).
+//
+// A thread-local, append-only event log that an external harness can switch
+// on around a generation call and read back afterwards. Nothing here changes
+// what the generator does: events are recorded at the generator's own
+// boundaries between emissions, carry no addresses and are only collected
+// while `start()` is in effect on the calling thread.
+
+use std::cell::RefCell;
+
+use crate::generator::{Generator, GenerationSource};
+use crate::stack::StackObject;
+
+/// shallow kind tags for simulated stack slots (no recursion, cycle safe).
+pub mod kind {
+    pub const MARK: u8 = 0;
+    pub const LIST: u8 = 1;
+    pub const DICT: u8 = 2;
+    pub const SET: u8 = 3;
+    pub const FROZENSET: u8 = 4;
+    pub const TUPLE: u8 = 5;
+    pub const STRING: u8 = 6;
+    pub const BYTES: u8 = 7;
+    pub const BYTEARRAY: u8 = 8;
+    pub const INT: u8 = 9;
+    pub const FLOAT: u8 = 10;
+    pub const BOOL: u8 = 11;
+    pub const NONE: u8 = 12;
+    pub const GLOBAL: u8 = 13;
+    pub const CALLABLE: u8 = 14;
+    pub const INSTANCE: u8 = 15;
+    pub const EXTENSION: u8 = 16;
+    pub const ANY: u8 = 17;
+}
+
+/// phase of `generate_internal` an emission belongs to.
+#[derive(Debug, Clone, Copy, PartialEq, Eq)]
+pub enum Phase {
+    /// freely chosen body opcode
+    Body,
+    /// stack-collapse tail (`cleanup_for_stop`)
+    Tail,
+    /// the final STOP
+    Stop,
+}
+
+/// kind of value handed to the `mutate_*` layer.
+#[derive(Debug, Clone, Copy, PartialEq, Eq)]
+pub enum ValueKind {
+    Int,
+    Long,
+    Float,
+    String,
+    Bytes,
+    Memo,
+}
+
+/// one recorded event.
+#[derive(Debug, Clone)]
+pub enum Event {
+    /// start of a generation call (after PROTO / FRAME reservation).
+    Run {
+        target_opcodes: usize,
+        use_frame: bool,
+        min: usize,
+        max: usize,
+        out_len: usize,
+    },
+    /// the candidate set offered before one body step.
+    Choice {
+        valid: Vec<u8>,
+        entropy_left: Option<usize>,
+        out_len: usize,
+    },
+    /// state after an emission.
+    Step {
+        phase: Phase,
+        out_len: usize,
+        stack_len: usize,
+        /// kind tag per stack slot, bottom first (empty unless snapshots are on)
+        stack: Vec<u8>,
+        /// sorted memo keys (empty unless snapshots are on)
+        memo_keys: Vec<usize>,
+        memo_len: usize,
+    },
+    /// a value reached `mutate_*` with at least one mutator registered.
+    Draw { kind: ValueKind, empty: bool },
+    /// mutator number `index` (name `mutator`) returned `Some` for the last Draw.
+    Mutated {
+        kind: ValueKind,
+        index: usize,
+        mutator: String,
+        changed: bool,
+    },
+    /// the output buffer differed before / after mutator `index`'s `post_process`.
+    Rewrite {
+        index: usize,
+        mutator: String,
+        snapshot_len: usize,
+        before_len: usize,
+        after_len: usize,
+    },
+}
+
+/// what to record.
+#[derive(Debug, Clone, Copy)]
+pub struct Config {
+    /// record full stack / memo snapshots in `Step` events
+    pub snapshots: bool,
+    /// record `Choice` events (candidate lists)
+    pub choices: bool,
+    /// panic once more than this many `Step` events were seen in one run (0 = off)
+    pub step_limit: usize,
+}
+
+impl Default for Config {
+    fn default() -> Self {
+        Self {
+            snapshots: true,
+            choices: true,
+            step_limit: 0,
+        }
+    }
+}
+
+struct Log {
+    on: bool,
+    cfg: Config,
+    phase: Phase,
+    steps: usize,
+    events: Vec<Event>,
+}
+
+thread_local! {
+    static LOG: RefCell<Log> = RefCell::new(Log {
+        on: false,
+        cfg: Config { snapshots: true, choices: true, step_limit: 0 },
+        phase: Phase::Body,
+        steps: 0,
+        events: Vec::new(),
+    });
+}
+
+/// start recording on this thread (clears earlier events).
+pub fn start(cfg: Config) {
+    LOG.with(|l| {
+        let mut l = l.borrow_mut();
+        l.on = true;
+        l.cfg = cfg;
+        l.phase = Phase::Body;
+        l.steps = 0;
+        l.events.clear();
+    });
+}
+
+/// stop recording and return the events.
+pub fn take() -> Vec<Event> {
+    LOG.with(|l| {
+        let mut l = l.borrow_mut();
+        l.on = false;
+        l.steps = 0;
+        std::mem::take(&mut l.events)
+    })
+}
+
+/// whether recording is on for this thread.
+pub fn enabled() -> bool {
+    LOG.with(|l| l.borrow().on)
+}
+
+fn push(ev: Event) {
+    LOG.with(|l| {
+        let mut l = l.borrow_mut();
+        if l.on {
+            l.events.push(ev);
+        }
+    });
+}
+
+fn kind_of(obj: &StackObject) -> u8 {
+    match obj {
+        StackObject::Mark => kind::MARK,
+        StackObject::List(_) => kind::LIST,
+        StackObject::Dict(_) => kind::DICT,
+        StackObject::Set(_) => kind::SET,
+        StackObject::FrozenSet(_) => kind::FROZENSET,
+        StackObject::Tuple(_) => kind::TUPLE,
+        StackObject::String(_) => kind::STRING,
+        StackObject::Bytes(_) => kind::BYTES,
+        StackObject::ByteArray(_) => kind::BYTEARRAY,
+        StackObject::Int(_) => kind::INT,
+        StackObject::Float(_) => kind::FLOAT,
+        StackObject::Bool(_) => kind::BOOL,
+        StackObject::None => kind::NONE,
+        StackObject::Global { .. } => kind::GLOBAL,
+        StackObject::Callable(_) => kind::CALLABLE,
+        StackObject::Instance(_) => kind::INSTANCE,
+        StackObject::Extension(_) => kind::EXTENSION,
+        StackObject::Any => kind::ANY,
+    }
+}
+
+pub(crate) fn run(g: &Generator, target_opcodes: usize, use_frame: bool) {
+    if !enabled() {
+        return;
+    }
+    LOG.with(|l| {
+        let mut l = l.borrow_mut();
+        l.phase = Phase::Body;
+        l.steps = 0;
+    });
+    push(Event::Run {
+        target_opcodes,
+        use_frame,
+        min: g.min_opcodes,
+        max: g.max_opcodes,
+        out_len: g.output.len(),
+    });
+}
+
+pub(crate) fn set_phase(phase: Phase) {
+    LOG.with(|l| l.borrow_mut().phase = phase);
+}
+
+pub(crate) fn choice(g: &Generator, valid: &[crate::opcodes::OpcodeKind], source: &GenerationSource) {
+    let record = LOG.with(|l| {
+        let l = l.borrow();
+        l.on && l.cfg.choices
+    });
+    if !record {
+        return;
+    }
+    push(Event::Choice {
+        valid: valid.iter().map(|op| op.as_u8()).collect(),
+        entropy_left: source.entropy_left(),
+        out_len: g.output.len(),
+    });
+}
+
+fn step(g: &Generator, phase: Phase) {
+    let (snapshots, limit, steps) = LOG.with(|l| {
+        let mut l = l.borrow_mut();
+        l.steps += 1;
+        (l.cfg.snapshots, l.cfg.step_limit, l.steps)
+    });
+    if limit != 0 && steps > limit {
+        // logical non-termination bound requested by the harness
+        LOG.with(|l| l.borrow_mut().steps = 0);
+        panic!("verif step limit exceeded: more than {} emissions", limit);
+    }
+    let (stack, memo_keys) = if snapshots {
+        let stack: Vec<u8> = g
+            .state
+            .stack
+            .inner
+            .iter()
+            .map(|o| kind_of(&o.borrow()))
+            .collect();
+        let mut keys: Vec<usize> = g.state.memo.keys().copied().collect();
+        keys.sort_unstable();
+        (stack, keys)
+    } else {
+        (Vec::new(), Vec::new())
+    };
+    push(Event::Step {
+        phase,
+        out_len: g.output.len(),
+        stack_len: g.state.stack.len(),
+        stack,
+        memo_keys,
+        memo_len: g.state.memo.len(),
+    });
+}
+
+/// called at the end of `emit_and_process` (one body step, after post-processing).
+pub(crate) fn step_body(g: &Generator) {
+    if enabled() {
+        step(g, Phase::Body);
+    }
+}
+
+/// called at the end of `emit_opcode`; records only outside the body phase,
+/// where `emit_opcode` is the emission boundary (collapse tail and STOP).
+pub(crate) fn step_simple(g: &Generator) {
+    if !enabled() {
+        return;
+    }
+    let phase = LOG.with(|l| l.borrow().phase);
+    if phase != Phase::Body {
+        step(g, phase);
+    }
+}
+
+pub(crate) fn draw(kind: ValueKind, empty: bool) {
+    if enabled() {
+        push(Event::Draw { kind, empty });
+    }
+}
+
+pub(crate) fn mutated(kind: ValueKind, index: usize, mutator: &str, changed: bool) {
+    if enabled() {
+        push(Event::Mutated {
+            kind,
+            index,
+            mutator: mutator.to_string(),
+            changed,
+        });
+    }
+}
+
+pub(crate) fn rewrite(
+    index: usize,
+    mutator: &str,
+    snapshot_len: usize,
+    before_len: usize,
+    after_len: usize,
+) {
+    if enabled() {
+        push(Event::Rewrite {
+            index,
+            mutator: mutator.to_string(),
+            snapshot_len,
+            before_len,
+            after_len,
+        });
+    }
+}
